@@ -328,6 +328,32 @@ def _gen_course(rng: random.Random):
         if all(periodic) or not any(periodic):
             periodic[rng.randrange(dim)] = not periodic[0]
     L = rng.choice([8, 10, 16])
+    if isinstance(periodic, list) and rng.random() < 0.6:
+        # droplets hugging the two opposite WALLS of a non-periodic axis: close to each other only if that axis were
+        # (wrongly) wrapped; a droplet hops from one wall to the other between frames, another pair sits there for good
+        ax = periodic.index(False)
+        frames = []
+        yA = [rng.uniform(0, L) for _ in range(dim)]
+        yB = [rng.uniform(0, L) for _ in range(dim)]
+        pair = rng.random() < 0.8
+        f0 = rng.randint(0, 2)          # the partner at the opposite wall appears in frame f0
+        hop = rng.random() < 0.6
+        for f in range(rng.randint(2, 5)):
+            fr = []
+            if hop:
+                p = list(yA)
+                p[ax] = rng.uniform(0.1, 0.6) if f % 2 == 0 else L - rng.uniform(0.1, 0.6)
+                fr.append((p, rng.uniform(0.7, 1.2)))
+            if pair:
+                q1, q2 = list(yB), list(yB)
+                q1[ax], q2[ax] = rng.uniform(0.1, 0.5), L - rng.uniform(0.1, 0.5)
+                fr.append((q1, rng.uniform(0.6, 0.9)))
+                if f >= f0:
+                    fr.append((q2, rng.uniform(0.6, 0.9)))
+            frames.append(fr)
+        method = rng.choice(["overlap", "distance"])
+        max_dist = rng.choice([None, 2.5, 1.0]) if method == "distance" else None
+        return dim, L, periodic, frames, method, max_dist
     nfr = rng.randint(1, 9)
     ndrop = rng.randint(0, 6)
     crowd = rng.random() < 0.3
